@@ -91,7 +91,6 @@ Definition call (f : val) (args : list val) : list val :=
 
 Record cctx := {
   cx_defer : bool;   (* the call is the operand of a defer statement *)
-  cx_hold : bool;    (* an argument holds a closure built in the calling frame (not a top-level literal) which the callee calls *)
   cx_value : bool    (* script calls script: the callee is a function value (closure variable), called through reflect *)
 }.
 
@@ -159,23 +158,22 @@ Definition y_bind (d : dir) (cx : cctx) (ins : list ty) (variadic : bool) (m : c
   | S2H =>
       (* callBin prepares each argument; reflect binds *)
       let prepared := map2 (fun t v => to_host (vsize v) t v) ats args in
-      if cx_defer cx && cx_hold cx then
-        (* runCfg runs deferred calls holding the frame mutex; the closure's epilogue takes it again *)
-        bad_all ins (s "timeout")
-      else
-        map host_view
-          match m with
-          | MPlain => prepared
-          | MInd => reflect_pack n prepared
-          | MSpread =>
-              if cx_defer cx then
-                (* deferred: val[0].Call(val[1:]) — Call, not CallSlice: the slice is one extra argument *)
-                match elem_ty ins with
-                | TAny => firstn n prepared ++ [VSlice [VIface (TSlice TAny) (last prepared VNil)]]
-                | _ => bad_all ins (s "panic")
-                end
-              else prepared
-          end
+      (* since abe7a69 the wrapper of a function literal (getFunc) takes no lock when a call ends:
+         a deferred host call may call back any closure it is given (runCfg runs the deferred calls
+         holding the frame mutex; before, the closure's epilogue took it again and the call hung) *)
+      map host_view
+        match m with
+        | MPlain => prepared
+        | MInd => reflect_pack n prepared
+        | MSpread =>
+            if cx_defer cx then
+              (* deferred: val[0].Call(val[1:]) — Call, not CallSlice: the slice is one extra argument *)
+              match elem_ty ins with
+              | TAny => firstn n prepared ++ [VSlice [VIface (TSlice TAny) (last prepared VNil)]]
+              | _ => bad_all ins (s "panic")
+              end
+            else prepared
+        end
   | H2S => bind_through_wrapper ins n m args
   | S2S =>
       if cx_value cx then
